@@ -1,5 +1,5 @@
 """Registry fragment of builder "tomb": C05 (tombstone lattices) and C07 (shipped lattice bimorphisms)."""
-from .registry import reg, mon
+from .registry import reg, mon, add_stage
 
 reg("C05", [mon("rt", "mon_tomb")],
     technique="runtime monitor: real Set/MapUnionWithTombstones (HashSet, Roaring, FST tombstone backends) driven through "
@@ -35,3 +35,9 @@ reg("C07", [mon("rt", "mon_morph")],
     note="Outputs are compared as sets of tuples (multiplicities in Vec outputs and empty trie nodes are invisible, as are "
          "bottom-valued map entries); element type is u8 throughout; GHT tries use the VariadicHashSetStd leaf storage the "
          "lattice impls require. Tries deeper than 2 key levels are not instantiated.")
+
+# The tombstone lattices' share of the crate-wide lattice laws (mon_lattices does not instantiate
+# SetUnionWithTombstones / MapUnionWithTombstones): same binary, judged clause by clause.
+add_stage("C01", mon("rt", "mon_tomb"))
+add_stage("C02", mon("rt", "mon_tomb"))
+add_stage("C03", mon("rt", "mon_tomb"))
